@@ -24,6 +24,7 @@ TIMES = 'history/times.py'; HFILES = 'history/files.py'; TNETS = 'server/tnetstr
 POLL = 'server/enip/poll.py'; DEFAULTS = 'server/enip/defaults.py'; NETWORK = 'server/network.py'
 
 VARIANTS = [
+    V( 'classstate-loader-values-shared', HFILES, "self.values = {}", "self.__class__.values	= {}", fires=[ 'W-CLASSSTATE' ] ),
     V( 'delegate-underscore-names-refused', DOT, "def __getattr__( self, key ):\n try:", "def __getattr__( self, key ):\n        if key.startswith( '_' ):\n            raise AttributeError( key )\n        try:", fires=[ 'D-DELEGATE' ] ),
     V( 'delegate-pop-default-as-one-argument', DOT, "return target.pop( rest, *args[1:] )", "return target.pop( rest, args )", fires=[ 'D-DELEGATE' ] ),
     V( 'route-closed-connection-keeps-engine', CLIENT, "self.engine = None # A closed connection has no response frame in progress", "pass", fires=[ 'P-ROUTE' ] ),
